@@ -459,7 +459,7 @@ func genTree(r *lib.Rng, depth int, hazards bool) *node {
 			add(f("BUILD.plz"))
 		}
 	}
-	nent := r.Range(0, 5)
+	nent := r.Range(1, 6)
 	if depth == 0 {
 		nent = r.Range(0, 2)
 	}
@@ -496,7 +496,7 @@ func pickSome(r *lib.Rng, pool []string, maxN int) []string {
 }
 
 func genInput(r *lib.Rng, hazards bool) *input {
-	in := &input{BuildFileNames: lib.Pick(r, buildNameSets), Tree: genTree(r, r.Range(1, 4), hazards)}
+	in := &input{BuildFileNames: lib.Pick(r, buildNameSets), Tree: genTree(r, r.Range(2, 4), hazards)}
 	in.Blacklist = pickSome(r, blacklistPool, 3)
 	if r.Chance(1, 2) {
 		in.Experimental = pickSome(r, experimentalPool, 2)
@@ -609,7 +609,8 @@ func adversarial() []*input {
 		{defaultNames, none, none, ".", "", d("", d("a", d("BUILD", f("BUILD.plz"))), d("b", l("BUILD")), d("c", f("BUILD"), f("BUILD.plz")), d("e", f("build")), d("g", f("BUILDX"), f("BUILD.pl")))},
 		// symlinks to directories are neither followed nor do they stop the scan
 		{defaultNames, []string{"vendor"}, none, ".", "", d("", pk("a", l("plz-out"), l("vendor"), pk("z")), l("link"), pk("z"))},
-		// plain files named like excluded directories (the SkipDir-for-a-file hazard)
+		// plain files named like excluded directories (witnesses of the defect fixed by 3d74a58: SkipDir returned for a
+		// non-directory made godirwalk abandon the rest of the directory)
 		{defaultNames, []string{"third_party"}, none, ".", "", d("", d("pkg", f("BUILD"), f("third_party"), pk("zeta"), pk("alpha")))},
 		{defaultNames, none, none, ".", "", d("", f("plz-out"), pk("a"), pk("z"))},
 		{defaultNames, none, []string{"exp"}, ".", "", d("", f("exp"), pk("a"), pk("z"))},
@@ -711,21 +712,18 @@ func main() {
 			}
 		}
 
-		// 2. random trees without plain files that are named like excluded directories: model + oracle
-		n := c.Scale(260, 6000)
+		// 2. random trees, model + oracle; two in three contain plain files named like excluded directories
+		//    (plz-out, blacklisted names, experimental dirs) and blacklisted BUILD file names
+		n := c.Scale(360, 9000)
 		for i := 0; i < n; i++ {
-			one(c, genInput(c.Rng.Fork(), false), true)
+			r := c.Rng.Fork()
+			one(c, genInput(r, r.Chance(2, 3)), true)
 		}
-		// 3. random trees with such files (and blacklisted BUILD file names): model + oracle
-		n = c.Scale(100, 3000)
-		for i := 0; i < n; i++ {
-			one(c, genInput(c.Rng.Fork(), true), true)
-		}
-		// 4. oracle only
+		// 3. oracle only
 		n = c.Scale(2500, 40000)
 		for i := 0; i < n; i++ {
 			r := c.Rng.Fork()
-			one(c, genInput(r, r.Chance(1, 4)), false)
+			one(c, genInput(r, r.Chance(2, 3)), false)
 		}
 	})
 }
